@@ -36,6 +36,10 @@ type Ctx struct {
 	boundsReady bool
 	Instrs      int
 	callersIdx  map[*ssa.Function]*callerInfo
+	aType       map[*types.TypeName]string
+	aField      map[*types.Var]string
+	aFn         map[*ssa.Function]string
+	aReport     []string
 }
 
 func shortPath(p string) string {
@@ -51,10 +55,24 @@ func short(fn *ssa.Function) string {
 	if fn == nil {
 		return "<nil>"
 	}
-	s := fn.String()
-	s = strings.ReplaceAll(s, modPath+"/", "")
-	s = strings.ReplaceAll(s, modPath+".", "dtls.")
-	return s
+	if len(aliasFn) == 0 && len(aliasType) == 0 {
+		return rawShort(fn)
+	}
+	if a, ok := aliasFn[fn]; ok {
+		return a
+	}
+	// function literals and instantiations are named after their root function
+	root := fn
+	for root.Parent() != nil {
+		root = root.Parent()
+	}
+	s := rawShort(fn)
+	if root != fn {
+		if a, ok := aliasFn[root]; ok {
+			s = a + strings.TrimPrefix(s, rawShort(root))
+		}
+	}
+	return aliasedTypeNames(s)
 }
 
 func inModule(fn *ssa.Function) bool {
@@ -77,7 +95,7 @@ func inModule(fn *ssa.Function) bool {
 	return (p == modPath || strings.HasPrefix(p, modPath+"/")) && !strings.HasPrefix(p, modPath+"/examples")
 }
 
-func load(repo, tier string, extraEnv []string) (*Ctx, error) {
+func load(repo, tier, verifDir string, extraEnv []string) (*Ctx, error) {
 	var env []string
 	for _, e := range os.Environ() {
 		if strings.HasPrefix(e, "PATH=") || strings.HasPrefix(e, "GOSUMDB=") || strings.HasPrefix(e, "GOWORK=") ||
@@ -122,7 +140,7 @@ func load(repo, tier string, extraEnv []string) (*Ctx, error) {
 	prog, _ := ssautil.AllPackages(initial, ssa.InstantiateGenerics)
 	prog.Build()
 
-	c := &Ctx{Repo: repo, Tier: tier, Prog: prog, Fset: prog.Fset,
+	c := &Ctx{Repo: repo, VerifDir: verifDir, Tier: tier, Prog: prog, Fset: prog.Fset,
 		ByPath: map[string]*ssa.Package{}, TPkgs: map[string]*packages.Package{}, fnByKey: map[string]*ssa.Function{}}
 	for _, p := range initial {
 		if strings.HasPrefix(p.PkgPath, modPath+"/examples") {
@@ -148,6 +166,8 @@ func load(repo, tier string, extraEnv []string) (*Ctx, error) {
 		c.Fns = append(c.Fns, fn)
 	}
 	sort.Slice(c.Fns, func(i, j int) bool { return c.Fns[i].String() < c.Fns[j].String() })
+	c.applyRenames()
+	c.aType, c.aField, c.aFn, c.aReport = aliasType, aliasField, aliasFn, aliasReport
 	for _, fn := range c.Fns {
 		c.fnByKey[short(fn)] = fn
 		for _, b := range fn.Blocks {
@@ -227,4 +247,12 @@ func (c *Ctx) ipos(in ssa.Instruction) string {
 		return c.pos(in.Parent().Pos())
 	}
 	return ""
+}
+
+// activate installs this program's rename aliases in the naming layer.
+func (c *Ctx) activate() {
+	aliasType, aliasField, aliasFn, aliasReport = c.aType, c.aField, c.aFn, c.aReport
+	if aliasType == nil {
+		resetAliases()
+	}
 }
